@@ -851,6 +851,33 @@ fn oracle_c10(ctx: &mut Ctx, idx: usize, c: &SCase, b: &Built, ex: &Exec) {
     }
 }
 
+/// every cost and state value of a result is a finite number
+pub fn outcome_finite(o: &Outcome) -> bool {
+    match o {
+        Outcome::Err(_) => true,
+        Outcome::Ok(r) => {
+            let fin = |et: &EdgeTraversal| et.access_cost.as_f64().is_finite() && et.traversal_cost.as_f64().is_finite() && et.result_state.iter().all(|x| x.0.is_finite());
+            r.routes.iter().all(|rt| rt.iter().all(|et| fin(et))) && r.trees.iter().all(|t| t.values().all(|b| fin(&b.edge_traversal)))
+        }
+    }
+}
+
+/// the numbers of a (hand-written) case are finite, lengths / speeds / delays non-negative
+pub fn case_numbers_ordinary(c: &SCase) -> bool {
+    let f = |x: f64| x.is_finite();
+    c.edges.iter().all(|e| f(e.2) && e.2 >= 0.0 && e.2 < 1e300)
+        && c.weights.iter().all(|w| f(w.1))
+        && c.feats.iter().all(|x| f(x.2))
+        && match &c.trav {
+            Trav::Speed { table, .. } => table.iter().all(|s| f(*s) && *s >= 0.0),
+            _ => true,
+        }
+        && match &c.access {
+            Acc::Turn { delays, .. } => delays.iter().all(|d| d.map_or(true, |d| f(d) && d >= 0.0)),
+            _ => true,
+        }
+}
+
 pub fn short(s: &str) -> String {
     if s.len() > 300 {
         format!("{}…", &s[..300])
@@ -990,6 +1017,62 @@ fn corpus(p: Prop) -> Vec<(SCase, LenStyle)> {
             c.term = Term::Runtime { limit_ns: 1000, freq: 2, base_ns: 0, per_ns: 600 };
             v.push((c.clone(), LenStyle::TieHeavy));
         }
+        Prop::C05 => {
+            // a tentative cost of +inf (1e308 m at weight 10 overflows): `tentative < Cost::INFINITY` is
+            // false, vertex 1 stays unlabelled and the answer is "no path" (destination-less: an empty
+            // tree after one iteration) — correspondence only, the number is outside the quantifiers
+            let mut o = base(vec![(0, 1, 1.0e308)], 2);
+            o.weights = vec![("distance".into(), 10.0)];
+            o.target = Some(1);
+            v.push((o.clone(), LenStyle::Generic));
+            o.target = None;
+            v.push((o, LenStyle::Generic));
+            // parallel edges 0 -> 1 of lengths NaN and 129.7: the NaN cost improves on nothing, the
+            // route is the second edge
+            let mut o2 = base(vec![(0, 1, f64::NAN), (0, 1, 129.7)], 2);
+            o2.target = Some(1);
+            v.push((o2, LenStyle::Generic));
+            // a vertex the haversine function refuses (latitude and longitude swapped): 0 -> 1 -> 2 with
+            // vertex 1 at (x = 39.7, y = -105).  `run_a_star` asks for the estimate of every vertex it
+            // labels whatever the weight factor, so Dijkstra 0 -> 2 ends in a traversal error although
+            // 2 is reachable; the destination-less search (no estimate) returns the tree; A* likewise fails
+            let mut c = base(vec![(0, 1, 100.0), (1, 2, 100.0)], 3);
+            c.coords[1] = (39.7, -105.0);
+            c.target = Some(2);
+            v.push((c.clone(), LenStyle::Generic));
+            let mut c2 = c.clone();
+            c2.target = None;
+            v.push((c2, LenStyle::Generic));
+            let mut c3 = c.clone();
+            c3.astar = Some(Some(1.0));
+            v.push((c3, LenStyle::Generic));
+            // the destination itself out of range: the estimate of the origin already fails
+            let mut c4 = c.clone();
+            c4.coords[1] = (-104.99, 39.7);
+            c4.coords[2] = (181.0, 0.0);
+            v.push((c4, LenStyle::Generic));
+            // a zero-length edge under the speed-table model: edges 0 -> 1 (100 m) and 0 -> 2 (0 m) at
+            // 10 m/s; `Time::create` refuses the zero distance, the error leaves `run_a_star`, and the
+            // query 0 -> 1 fails with a traversal error although 1 is reachable (C09 demands the
+            // rejection by `create_time`; the search does not skip the edge)
+            let mut z = base(vec![(0, 1, 100.0), (0, 2, 0.0)], 3);
+            z.feats = vec![("distance".into(), FeatK::D(DistanceUnit::Meters), 0.0), ("time".into(), FeatK::T(TimeUnit::Seconds), 0.0)];
+            z.trav = Trav::Speed { su: SpeedUnit::MetersPerSecond, du: DistanceUnit::Meters, tu: TimeUnit::Seconds, table: vec![10.0, 10.0] };
+            z.weights = vec![("distance".into(), 1.0), ("time".into(), 1.0)];
+            z.vrates = vec![("distance".into(), VR::Raw), ("time".into(), VR::Raw)];
+            z.target = Some(1);
+            v.push((z.clone(), LenStyle::Generic));
+            // the same with a zero table speed on the second edge (50 m long)
+            let mut z2 = z.clone();
+            z2.edges[1].2 = 50.0;
+            z2.trav = Trav::Speed { su: SpeedUnit::MetersPerSecond, du: DistanceUnit::Meters, tu: TimeUnit::Seconds, table: vec![10.0, 0.0] };
+            v.push((z2, LenStyle::Generic));
+            // the zero-length edge under the distance model is an edge like any other (its cost is
+            // the positive floor of the cost model)
+            let mut z3 = base(vec![(0, 1, 100.0), (0, 2, 0.0), (2, 1, 10.0)], 3);
+            z3.target = Some(1);
+            v.push((z3, LenStyle::Generic));
+        }
         _ => {}
     }
     v
@@ -1078,6 +1161,7 @@ pub fn run(ctx: &mut Ctx, p: Prop) -> &'static str {
     let total = n_corpus + n;
     for k in 0..total {
         let Some(idx) = ctx.begin() else { continue };
+        let mut shaped: Option<Shaped> = None;
         let (mut c, style) = if k < n_corpus {
             items[k].clone()
         } else {
@@ -1087,8 +1171,20 @@ pub fn run(ctx: &mut Ctx, p: Prop) -> &'static str {
             let mut c = gen_case(&mut rng, &opts);
             shape_for(p, &mut c, &mut rng);
             shape_app(&mut c, &mut rng);
+            // one case in six goes where the generator above never does (a generator of its own, so
+            // that the other five keep their choices)
+            let mut rx = Rng::for_case(ctx.seed, 9200 + tag(p), idx as u64);
+            if rx.chance(1, 6) {
+                let numeric = rx.chance(2, 3);
+                let sh = shape_extreme(&mut c, &mut rx, numeric);
+                ctx.count(&format!("extreme_{}", sh.label));
+                shaped = Some(sh);
+            }
             (c, style)
         };
+        // correspondence only: the case holds a number outside the properties' quantifiers
+        let silent = shaped.map_or(false, |s| !s.oracle) || (k < n_corpus && !case_numbers_ordinary(&c));
+        let style = if style == LenStyle::Metric && shaped.map_or(false, |s| !s.metric_ok) { LenStyle::Generic } else { style };
         if c.edge_oriented {
             c.reverse = false; // the application never runs an edge-oriented search in reverse
         }
@@ -1108,6 +1204,9 @@ pub fn run(ctx: &mut Ctx, p: Prop) -> &'static str {
             Err(e) => {
                 let kind = e.split(':').next().unwrap_or("").to_string();
                 ctx.count(&format!("build_refused_{}", kind));
+                if silent {
+                    continue; // whether such a number should be refused is no part of these properties
+                }
                 if !(expect_refusal && kind == "cost") {
                     ctx.emit(idx, "build".into(), format!("build refused {}", kind));
                     ctx.fail(idx, "build/valid-configuration-refused", format!("a valid configuration was refused: {}", e));
@@ -1136,7 +1235,7 @@ pub fn run(ctx: &mut Ctx, p: Prop) -> &'static str {
                 Err(e) => ctx.fail(idx, "build/application-builders-differ-from-direct", format!("the in-code construction was refused: {}", e)),
             }
         }
-        if let Trav::Speed { table, .. } = &c.trav {
+        if let (Trav::Speed { table, .. }, false) = (&c.trav, silent) {
             // premise of the A* time estimate: the engine's maximum is the largest table speed
             let m = table.iter().cloned().fold(f64::NEG_INFINITY, f64::max);
             if b.max_speed != m {
@@ -1193,7 +1292,14 @@ pub fn run(ctx: &mut Ctx, p: Prop) -> &'static str {
         } else if style == LenStyle::Metric {
             ctx.count("style_metric");
         }
+        // outside the quantifiers (a non-finite, negative or overflowing number in the case or in what
+        // came back): the oracles are silent, the case counts for the correspondence
+        let silent = silent || !outcome_finite(&ex.outcome);
+        if silent {
+            ctx.count("correspondence_only");
+        }
         match (p, &ex.outcome) {
+            _ if silent => {}
             (Prop::C01, Outcome::Ok(r)) => oracle_c01(ctx, idx, &c, r),
             (Prop::C02, Outcome::Ok(r)) => oracle_c02(ctx, idx, &c, &b, r, style),
             (Prop::C03, Outcome::Ok(r)) => oracle_c03(ctx, idx, &c, &b, r, reopened),
@@ -1223,12 +1329,12 @@ pub fn run(ctx: &mut Ctx, p: Prop) -> &'static str {
     // malformed inputs (harness/src/appbuild.rs); case lines start with `bld`
     crate::appbuild::run_stream(ctx, p);
     match p {
-        Prop::C01 => "random digraphs (rings, grids, two components, dense with parallel edges and self loops), tie-heavy / generic / metric lengths, Dijkstra and A* with weight factors 0..10, forward and reverse, vertex and edge orientation, with the full model stack, followed by a k-shortest-paths stream (single-via vertex- and edge-oriented, Yen where it returns: every single-via route and the first Yen route judged by the same walk oracle; lollipop and edge-oriented multi-route shapes first); non-trivial = successful search with a route of >= 2 edges or a tree of >= 3 entries (KSP: at least two routes), distinct by full output; half of the generated cases build their traversal / access / frontier models through the application's builders, files and services (compared with the in-code construction); then direct calls of a_star_algorithm::run_a_star_edge_oriented + backtrack::edge_oriented_route and of the k-shortest-path algorithms without destination (`bld` stream)",
-        Prop::C02 => "state-independent non-negative costs (distance / speed models, raw / factor / combined rates, per-edge surcharges), no access model, edge-local restrictions, half of the cases metrically consistent; Bellman-Ford oracle; non-trivial as C01; then a `bld` stream: SpeedLookupBuilder / SpeedTraversalEngine::new on speed table files (positive, zero, negative, NaN, inf, junk rows, no rows, missing file, default units, malformed configuration), DistanceTraversalBuilder, the weight_factor query field",
-        Prop::C03 => "all unit configurations of distance / speed models and turn-delay access models; per-edge re-accumulation with the real unit functions, also along every alternative of a k-shortest-paths stream (turn delays, junction of the two halves included); non-trivial as C01; then a `bld` stream: speed table files and TurnDelayAccessModelBuilder on edge-headings files (swapped / wrong header, short records, cells that are no i16, empty departure) with delay-table configurations (missing classes, unknown names, ill-typed values, negative delays — refused, and what the real access model does to the clock is checked —, custom time feature)",
-        Prop::C04 => "road-class, vehicle-restriction (mixed units, values straddling limits), turn-restriction and edge-cut models and their combinations, also on every alternative of a k-shortest-paths stream; non-trivial as C01; then a `bld` stream: VehicleParameters::from_query (every field missing / ill-typed / wrong unit family, axle counts up to 2^32), RoadClassBuilder with class files, parser mappings and road_classes fields (numbers, names, mixed, unknown, out of range), TurnRestrictionBuilder, VehicleRestrictionBuilder (bad names, units, values) and CombinedBuilder",
-        Prop::C05 => "disconnected and restricted graphs, with and without destination; BFS oracle over permitted edges; non-trivial as C01",
-        Prop::C10 => "iteration / solution-size / runtime limits (virtual clock) and combinations from zero to beyond need, followed by a k-shortest-paths stream (single-via and returning Yen runs: each underlying search within its limits, result identical to the unlimited query or the explicit terminated error); non-trivial = successful non-trivial search or explicit termination; then a `bld` stream: TerminationModelBuilder on nested sections with one planted defect (missing / ill-typed fields, malformed durations, unknown types), negative counts, frequency 0, durations beyond u64",
+        Prop::C01 => "random digraphs (rings, grids, two components, dense with parallel edges and self loops), tie-heavy / generic / metric lengths, Dijkstra and A* with weight factors 0..10, forward and reverse, vertex and edge orientation, with the full model stack, followed by a k-shortest-paths stream (single-via vertex- and edge-oriented, Yen where it returns: every single-via route and the first Yen route judged by the same walk oracle; lollipop and edge-oriented multi-route shapes first); non-trivial = successful search with a route of >= 2 edges or a tree of >= 3 entries (KSP: at least two routes), distinct by full output; half of the generated cases build their traversal / access / frontier models through the application's builders, files and services (compared with the in-code construction); then direct calls of a_star_algorithm::run_a_star_edge_oriented + backtrack::edge_oriented_route and of the k-shortest-path algorithms without destination (`bld` stream); one generated case in six (and one single-via case in eight of the k-shortest-paths stream) is pushed into a region the plain generator never reaches: a vertex whose coordinates the haversine function refuses, zero-length edges, zero table speeds (inside the quantifiers, oracles on); 0, -0, negative, 1e308, +-inf, NaN, subnormal lengths / speeds / weights / rates / delays / initial values / weight factors / vehicle limits and limits at the ends of u64 / usize (outside: correspondence only, oracles silent, as on every case whose result holds a non-finite number)",
+        Prop::C02 => "state-independent non-negative costs (distance / speed models, raw / factor / combined rates, per-edge surcharges), no access model, edge-local restrictions, half of the cases metrically consistent; Bellman-Ford oracle; non-trivial as C01; then a `bld` stream: SpeedLookupBuilder / SpeedTraversalEngine::new on speed table files (positive, zero, negative, NaN, inf, junk rows, no rows, missing file, default units, malformed configuration), DistanceTraversalBuilder, the weight_factor query field; one generated case in six (and one single-via case in eight of the k-shortest-paths stream) is pushed into a region the plain generator never reaches: a vertex whose coordinates the haversine function refuses, zero-length edges, zero table speeds (inside the quantifiers, oracles on); 0, -0, negative, 1e308, +-inf, NaN, subnormal lengths / speeds / weights / rates / delays / initial values / weight factors / vehicle limits and limits at the ends of u64 / usize (outside: correspondence only, oracles silent, as on every case whose result holds a non-finite number)",
+        Prop::C03 => "all unit configurations of distance / speed models and turn-delay access models; per-edge re-accumulation with the real unit functions, also along every alternative of a k-shortest-paths stream (turn delays, junction of the two halves included); non-trivial as C01; then a `bld` stream: speed table files and TurnDelayAccessModelBuilder on edge-headings files (swapped / wrong header, short records, cells that are no i16, empty departure) with delay-table configurations (missing classes, unknown names, ill-typed values, negative delays — refused, and what the real access model does to the clock is checked —, custom time feature); one generated case in six (and one single-via case in eight of the k-shortest-paths stream) is pushed into a region the plain generator never reaches: a vertex whose coordinates the haversine function refuses, zero-length edges, zero table speeds (inside the quantifiers, oracles on); 0, -0, negative, 1e308, +-inf, NaN, subnormal lengths / speeds / weights / rates / delays / initial values / weight factors / vehicle limits and limits at the ends of u64 / usize (outside: correspondence only, oracles silent, as on every case whose result holds a non-finite number)",
+        Prop::C04 => "road-class, vehicle-restriction (mixed units, values straddling limits), turn-restriction and edge-cut models and their combinations, also on every alternative of a k-shortest-paths stream; non-trivial as C01; then a `bld` stream: VehicleParameters::from_query (every field missing / ill-typed / wrong unit family, axle counts up to 2^32), RoadClassBuilder with class files, parser mappings and road_classes fields (numbers, names, mixed, unknown, out of range), TurnRestrictionBuilder, VehicleRestrictionBuilder (bad names, units, values) and CombinedBuilder; one generated case in six (and one single-via case in eight of the k-shortest-paths stream) is pushed into a region the plain generator never reaches: a vertex whose coordinates the haversine function refuses, zero-length edges, zero table speeds (inside the quantifiers, oracles on); 0, -0, negative, 1e308, +-inf, NaN, subnormal lengths / speeds / weights / rates / delays / initial values / weight factors / vehicle limits and limits at the ends of u64 / usize (outside: correspondence only, oracles silent, as on every case whose result holds a non-finite number)",
+        Prop::C05 => "disconnected and restricted graphs, with and without destination; BFS oracle over permitted edges; non-trivial as C01; one generated case in six (and one single-via case in eight of the k-shortest-paths stream) is pushed into a region the plain generator never reaches: a vertex whose coordinates the haversine function refuses, zero-length edges, zero table speeds (inside the quantifiers, oracles on); 0, -0, negative, 1e308, +-inf, NaN, subnormal lengths / speeds / weights / rates / delays / initial values / weight factors / vehicle limits and limits at the ends of u64 / usize (outside: correspondence only, oracles silent, as on every case whose result holds a non-finite number)",
+        Prop::C10 => "iteration / solution-size / runtime limits (virtual clock) and combinations from zero to beyond need, followed by a k-shortest-paths stream (single-via and returning Yen runs: each underlying search within its limits, result identical to the unlimited query or the explicit terminated error); non-trivial = successful non-trivial search or explicit termination; then a `bld` stream: TerminationModelBuilder on nested sections with one planted defect (missing / ill-typed fields, malformed durations, unknown types), negative counts, frequency 0, durations beyond u64; one generated case in six (and one single-via case in eight of the k-shortest-paths stream) is pushed into a region the plain generator never reaches: a vertex whose coordinates the haversine function refuses, zero-length edges, zero table speeds (inside the quantifiers, oracles on); 0, -0, negative, 1e308, +-inf, NaN, subnormal lengths / speeds / weights / rates / delays / initial values / weight factors / vehicle limits and limits at the ends of u64 / usize (outside: correspondence only, oracles silent, as on every case whose result holds a non-finite number)",
     }
 }
 
@@ -1378,4 +1484,219 @@ fn shape_for(p: Prop, c: &mut SCase, rng: &mut Rng) {
         }
         _ => {}
     }
+}
+
+/// what `shape_extreme` did to a case
+#[derive(Clone, Copy, Debug)]
+pub struct Shaped {
+    pub label: &'static str,
+    /// the case is still inside the properties' quantifiers (finite, non-negative numbers): the oracles
+    /// stay on.  Off = correspondence only.
+    pub oracle: bool,
+    /// the edge lengths are still at least the great-circle distances (the `Metric` premise survives)
+    pub metric_ok: bool,
+}
+
+/// Regions the plain generator never reaches (fidelity review of the search core): one component of
+/// the case is pushed there.
+///
+/// * inside the quantifiers (oracles stay on): a vertex whose coordinates the haversine function
+///   refuses (latitude / longitude swapped, 181 degrees, NaN, inf) — the estimate of that vertex is a
+///   traversal error, Dijkstra included —; a zero-length edge; a zero table speed (`Time::create`
+///   refuses both: the query that relaxes such an edge under the speed-table model fails with a
+///   traversal error);
+/// * outside (`numeric`; correspondence only): 0, -0, negative, 1e308, -1e308, +-inf, NaN, subnormal
+///   and tiny lengths, speeds, weights, initial values, delays, weight factors, rates, surcharges,
+///   vehicle limits and dimensions; usize / u64 limits at their ends.
+pub fn shape_extreme(c: &mut SCase, rng: &mut Rng, numeric: bool) -> Shaped {
+    let n_e = c.edges.len();
+    let n_v = c.coords.len();
+    const BAD_COORD: [(f32, f32); 7] =
+        [(39.7, -105.0), (181.0, 0.0), (-105.0, 90.5), (f32::NAN, 39.7), (-105.0, f32::NAN), (f32::INFINITY, 0.0), (-105.0, f32::NEG_INFINITY)];
+    let kind = if numeric { rng.below(19) } else { rng.below(4) };
+    let inside = |label: &'static str, metric_ok: bool| Shaped { label, oracle: true, metric_ok };
+    match kind {
+        0 => {
+            let k = rng.below(n_v);
+            c.coords[k] = *rng.pick(&BAD_COORD);
+            return inside("coord_out_of_range", true);
+        }
+        1 => {
+            let k = rng.below(n_e);
+            c.edges[k].2 = 0.0;
+            return inside("edge_len_zero", false);
+        }
+        2 => {
+            if let Trav::Speed { table, .. } = &mut c.trav {
+                // never the whole table (a table whose maximum is zero is refused at build time)
+                if table.len() >= 2 {
+                    let k = rng.below(table.len());
+                    table[k] = 0.0;
+                    return inside("speed_zero", true);
+                }
+            }
+            let k = rng.below(n_e);
+            c.edges[k].2 = 0.0;
+            return inside("edge_len_zero", false);
+        }
+        3 => {
+            // several zero-length edges, and the target's own coordinates refused (every estimate fails)
+            if rng.chance(1, 2) {
+                for e in c.edges.iter_mut() {
+                    if rng.chance(1, 3) {
+                        e.2 = 0.0;
+                    }
+                }
+                return inside("edge_len_zero_many", false);
+            }
+            if let Some(t) = inner_target(c) {
+                if t < n_v {
+                    c.coords[t] = *rng.pick(&BAD_COORD);
+                    return inside("coord_target_out_of_range", true);
+                }
+            }
+            let k = rng.below(n_v);
+            c.coords[k] = *rng.pick(&BAD_COORD);
+            return inside("coord_out_of_range", true);
+        }
+        _ => {}
+    }
+    // outside the quantifiers: every model constructed in code (a file or a JSON document cannot
+    // carry every one of these numbers)
+    c.app = AppBuild::default();
+    c.svc = None;
+    c.term_via_builder = false;
+    const XF: [f64; 12] = [0.0, -0.0, -5.0, 1e308, -1e308, f64::INFINITY, f64::NEG_INFINITY, f64::NAN, 5e-324, 1e-320, 1e-10, 1e15];
+    let x = *rng.pick(&XF);
+    let label: &'static str = match kind {
+        4 => {
+            let k = rng.below(n_e);
+            c.edges[k].2 = x;
+            "x_edge_len"
+        }
+        5 => {
+            if let Trav::Speed { table, .. } = &mut c.trav {
+                let k = rng.below(table.len());
+                table[k] = x;
+                "x_speed"
+            } else {
+                let k = rng.below(n_e);
+                c.edges[k].2 = x;
+                "x_edge_len"
+            }
+        }
+        6 => {
+            if !c.weights.is_empty() {
+                let k = rng.below(c.weights.len());
+                c.weights[k].1 = x;
+            }
+            "x_weight"
+        }
+        7 => {
+            let k = rng.below(c.feats.len());
+            c.feats[k].2 = if matches!(c.feats[k].1, FeatK::X) && !x.is_finite() { 1e308 } else { x };
+            "x_initial_value"
+        }
+        8 => {
+            if let Acc::Turn { delays, .. } = &mut c.access {
+                let k = rng.below(8);
+                delays[k] = Some(x);
+                "x_delay"
+            } else {
+                for e in c.edges.iter_mut() {
+                    e.2 = x;
+                }
+                "x_all_len"
+            }
+        }
+        9 => {
+            c.astar = Some(Some(x));
+            c.query_wf = None;
+            "x_weight_factor"
+        }
+        10 => {
+            if !c.vrates.is_empty() {
+                let k = rng.below(c.vrates.len());
+                c.vrates[k].1 = if rng.chance(1, 2) { VR::Factor(x) } else { VR::Offset(x) };
+            }
+            "x_vehicle_rate"
+        }
+        11 => {
+            let name = c.feats[rng.below(c.feats.len())].0.clone();
+            c.nrates.retain(|(n, _)| *n != name);
+            let e = rng.below(n_e);
+            c.nrates.push((name, if rng.chance(1, 2) { NR::Edge(vec![(e, x)]) } else { NR::EdgeEdge((0..n_e).map(|p| (p, e, x)).collect()) }));
+            "x_network_rate"
+        }
+        12 => {
+            // vehicle restriction with an extreme limit / dimension, no axles or 255 of them (no NaN:
+            // the code compares limits in OrderedFloat's total order, where NaN is the greatest number;
+            // the model states the NaN-free domain — restriction files cannot hold a NaN)
+            let x = if x.is_nan() { f64::INFINITY } else { x };
+            let params = VParams {
+                height: (if rng.chance(1, 3) { x } else { 3.0 }, *rng.pick(&DU)),
+                width: (2.0, *rng.pick(&DU)),
+                total_length: (10.0, *rng.pick(&DU)),
+                trailer_length: (5.0, *rng.pick(&DU)),
+                total_weight: (if rng.chance(1, 3) { *rng.pick(&[0.0, -3.0, 1e308, 5e-324]) } else { 10.0 }, *rng.pick(&WU)),
+                axles: if rng.chance(1, 2) { 0 } else { 255 },
+            };
+            let mut rows = vec![];
+            for e in 0..n_e {
+                if rng.chance(1, 2) {
+                    continue;
+                }
+                let r = if rng.chance(1, 2) {
+                    Restr::Weight { per_axle: rng.chance(1, 2), limit: x, unit: *rng.pick(&WU) }
+                } else {
+                    Restr::Length { which: 2 + rng.below(4) as u8, limit: x, unit: *rng.pick(&DU) }
+                };
+                rows.push((e, vec![r]));
+            }
+            c.frontier.retain(|f| !matches!(f, Fr::Vehicle { .. }));
+            c.frontier.push(Fr::Vehicle { rows, params });
+            "x_vehicle_restriction"
+        }
+        13 => {
+            c.term = rng.pick(&[Term::Iters(u64::MAX), Term::Size(usize::MAX), Term::Iters(0), Term::Size(0)]).clone();
+            "x_limit"
+        }
+        14 => {
+            for e in c.edges.iter_mut() {
+                e.2 = x;
+            }
+            "x_all_len"
+        }
+        15 => {
+            c.agg_mul = true;
+            let k = rng.below(n_e);
+            c.edges[k].2 = x;
+            "x_mul_len"
+        }
+        16 => {
+            for w in c.weights.iter_mut() {
+                w.1 = x;
+            }
+            "x_all_weights"
+        }
+        17 => {
+            if let Trav::Speed { table, .. } = &mut c.trav {
+                for t in table.iter_mut() {
+                    *t = x;
+                }
+                "x_all_speed"
+            } else {
+                let k = rng.below(n_e);
+                c.edges[k].2 = x;
+                "x_edge_len"
+            }
+        }
+        _ => {
+            for p in c.coords.iter_mut() {
+                *p = (0.0, 0.0);
+            }
+            "x_same_coords"
+        }
+    };
+    Shaped { label, oracle: false, metric_ok: false }
 }
